@@ -15,11 +15,13 @@ package c14
 
 import (
 	"context"
+	"database/sql"
 	"database/sql/driver"
 	"errors"
 	"fmt"
 	"os"
 	"path/filepath"
+	"reflect"
 	"regexp"
 	"strings"
 	"sync"
@@ -47,25 +49,30 @@ const (
 	textA = "SELECT v FROM ps WHERE id = ?"
 	textB = "SELECT v FROM ps WHERE id = ? AND 1 = 1"
 	textU = "UPDATE ps SET n = n + 1 WHERE id = ?"
+	textN = "SELECT n FROM ps WHERE id = ?"
 )
 
 type opKind string
 
-var opKinds = []opKind{"QA", "QB", "FIND", "EXEC", "TXQA", "TXEXEC", "QA", "QB"}
+// ROW / TXROW read the worker's own counter row through Row() (outside / inside a transaction, there
+// after an increment of its own: the transaction must read its own write)
+var opKinds = []opKind{"QA", "QB", "FIND", "EXEC", "TXQA", "TXEXEC", "QA", "QB", "ROW", "TXROW"}
 
 type opResult struct {
 	op          opKind
 	err         error
 	val         string
 	rows        int64
-	closeBefore bool // Close had been issued before the operation started
-	closeAfter  bool // ... before it returned
+	n           int64 // counter value read by ROW / TXROW
+	closeBefore bool  // Close had been issued before the operation started
+	closeAfter  bool  // ... before it returned
 	resetsAt    [2]int
 	startTick   int
 }
 
 type world struct {
 	s    *sched
+	root *gorm.DB // session-level mode: every operation derives its own Session{PrepareStmt: true} from here
 	db   *gorm.DB
 	rec  *recdrv.Recorder
 	psdb *gorm.PreparedStmtDB
@@ -94,14 +101,46 @@ func openWorld(c *core.Ctx, s *sched, sessionLevel bool, maxOpen int) *world {
 	if sessionLevel {
 		tx := db.Session(&gorm.Session{PrepareStmt: true})
 		w.psdb, _ = tx.Statement.ConnPool.(*gorm.PreparedStmtDB)
-		// the canonical instance lives in the handle's cache; sessions share its map and mutex
+		// the canonical instance lives in the handle's cache; sessions share its map and mutex:
+		// every operation derives a session of its own from the root handle
 		w.db = tx
+		w.root = db
 	} else {
 		w.psdb, _ = db.ConnPool.(*gorm.PreparedStmtDB)
 	}
+	// Row() hands out a *sql.Row and keeps the error to itself: record it per worker
+	db.Callback().Row().After("gorm:row").Register("verif:row_error", func(tx *gorm.DB) {
+		if wk, ok := tx.Statement.Context.Value(wkey).(int); ok {
+			s.mu.Lock()
+			if s.rowErr == nil {
+				s.rowErr = map[int]error{}
+			}
+			s.rowErr[wk] = tx.Error
+			s.mu.Unlock()
+		}
+	})
 	rec.SetHook(s.driverHook)
 	verifhook.Set(s.hookPoint)
 	return w
+}
+
+// errRowUnusable: Row() handed out a zero *sql.Row and reported no error (Scan on it panics inside
+// database/sql): PreparedStmtDB/PreparedStmtTX.QueryRowContext swallow the error of prepare().
+var errRowUnusable = errors.New("verif: Row() returned an unusable empty *sql.Row and no error")
+
+// scanRow scans the counter out of a Row() result; a failed Row() hands out an empty *sql.Row (whose
+// Scan would panic inside database/sql): the error recorded by the callback is returned instead.
+func (w *world) scanRow(worker int, row *sql.Row, dst *int64) error {
+	w.s.mu.Lock()
+	err := w.s.rowErr[worker]
+	w.s.mu.Unlock()
+	if err != nil {
+		return err
+	}
+	if row == nil || reflect.DeepEqual(*row, sql.Row{}) {
+		return errRowUnusable
+	}
+	return row.Scan(dst)
 }
 
 func (w *world) close() {
@@ -118,6 +157,9 @@ func (w *world) close() {
 func (w *world) runOp(worker int, op opKind) opResult {
 	ctx := context.WithValue(context.Background(), wkey, worker)
 	db := w.db.WithContext(ctx)
+	if w.root != nil {
+		db = w.root.Session(&gorm.Session{PrepareStmt: true}).WithContext(ctx)
+	}
 	r := opResult{op: op}
 	w.s.mu.Lock()
 	r.closeBefore = w.s.closeIssued
@@ -140,6 +182,17 @@ func (w *world) runOp(worker int, op opKind) opResult {
 		r.err, r.rows = res.Error, res.RowsAffected
 	case "TXQA":
 		r.err = db.Transaction(func(tx *gorm.DB) error { return tx.Raw(textA, 1).Scan(&r.val).Error })
+	case "ROW":
+		r.err = w.scanRow(worker, db.Raw(textN, own).Row(), &r.n)
+	case "TXROW":
+		r.err = db.Transaction(func(tx *gorm.DB) error {
+			res := tx.Exec(textU, own)
+			if res.Error != nil {
+				return res.Error
+			}
+			r.rows = res.RowsAffected
+			return w.scanRow(worker, tx.Raw(textN, own).Row(), &r.n)
+		})
 	case "TXEXEC":
 		r.err = db.Transaction(func(tx *gorm.DB) error {
 			res := tx.Exec(textU, own)
@@ -168,13 +221,15 @@ func expected(op opKind) (string, int64) {
 		return "a", 0
 	case "QB", "FIND":
 		return "b", 0
-	case "EXEC":
+	case "EXEC", "TXROW":
 		return "", 1
 	case "TXEXEC":
 		return "b", 1
 	}
 	return "", 0
 }
+
+func increments(op opKind) bool { return op == "EXEC" || op == "TXEXEC" || op == "TXROW" }
 
 var cleanAfterClose = regexp.MustCompile(`invalid db|statement is closed|database is closed`)
 
@@ -223,6 +278,7 @@ func genScenario(r *core.Rand) scenario {
 }
 
 type outcome struct {
+	dump     []string
 	problems []string
 	trace    []string
 	results  [][]opResult
@@ -284,6 +340,7 @@ func execute(c *core.Ctx, sc scenario, r *core.Rand, forced []int) outcome {
 	if stuck != "" {
 		if strings.HasPrefix(stuck, "deadlock") {
 			out.problems = append(out.problems, stuck)
+			out.dump = s.lastDump
 		} else {
 			out.inconcl = stuck
 		}
@@ -303,8 +360,30 @@ func execute(c *core.Ctx, sc scenario, r *core.Rand, forced []int) outcome {
 		out.problems = append(out.problems, p)
 	}
 	if !sc.closeEarly {
-		closeAct.do()
+		s.startCtl(closeAct)
+		if !s.waitCtl() {
+			out.problems = append(out.problems, s.describeStuck())
+			out.dump = s.lastDump
+		}
 	}
+	if w.root != nil {
+		// session-level mode: operations that started after the Close went through sessions of their own
+		// and may have prepared statements again; at shutdown the application closes the manager of a
+		// fresh session, which shares the one cache of the handle
+		fin := ctlAction{"Close() through a fresh session at shutdown", func() {
+			if m, ok := w.root.Session(&gorm.Session{PrepareStmt: true}).Statement.ConnPool.(*gorm.PreparedStmtDB); ok {
+				m.Close()
+			}
+		}}
+		s.startCtl(fin)
+		if !s.waitCtl() {
+			out.problems = append(out.problems, s.describeStuck())
+			out.dump = s.lastDump
+		}
+	}
+	s.mu.Lock()
+	out.problems = append(out.problems, s.ctlPanics...)
+	s.mu.Unlock()
 	// quiescence: closer goroutines balanced (logical condition), then the driver must
 	// hold no open statement; statements evicted after ErrBadConn are closed by plain
 	// goroutines: give them bounded time
@@ -337,13 +416,23 @@ func execute(c *core.Ctx, sc scenario, r *core.Rand, forced []int) outcome {
 	out.choices = s.choices
 	// results
 	for i, rs := range out.results {
+		incs, certain := int64(0), true // the worker's own successful increments so far
 		for _, r := range rs {
 			wantV, wantN := expected(r.op)
 			if r.err == nil {
 				if r.val != wantV || r.rows != wantN {
 					out.problems = append(out.problems, fmt.Sprintf("w%d %s returned (%q, %d rows), non-prepared mode returns (%q, %d rows)", i+1, r.op, r.val, r.rows, wantV, wantN))
 				}
+				if increments(r.op) {
+					incs++
+				}
+				if (r.op == "ROW" || r.op == "TXROW") && certain && r.n != incs {
+					out.problems = append(out.problems, fmt.Sprintf("w%d %s read its counter as %d through Row(), non-prepared mode reads %d (its own increments so far, the one of this transaction included)", i+1, r.op, r.n, incs))
+				}
 				continue
+			}
+			if increments(r.op) {
+				certain = false // a failed increment may or may not have been applied
 			}
 			var pe *errPrepare
 			switch {
@@ -357,6 +446,8 @@ func execute(c *core.Ctx, sc scenario, r *core.Rand, forced []int) outcome {
 				if !s.badconnHit[i+1] {
 					out.problems = append(out.problems, fmt.Sprintf("w%d %s returned ErrBadConn that was never injected for it", i+1, r.op))
 				}
+			case errors.Is(r.err, errRowUnusable):
+				out.problems = append(out.problems, fmt.Sprintf("w%d %s: Row() returned a zero *sql.Row and no error (its Scan panics); non-prepared mode returns a row carrying the error (Close issued before it returned: %v)", i+1, r.op, r.closeAfter))
 			case r.closeAfter && cleanAfterClose.MatchString(r.err.Error()):
 				// clean error once the cache is closed
 			default:
@@ -509,6 +600,8 @@ func report(c *core.Ctx, sc scenario, out outcome) {
 				sig = "leak"
 			case strings.Contains(p, "was prepared"):
 				sig = "duplicate-prepare"
+			case strings.Contains(p, "returned a zero *sql.Row"):
+				sig = "row-swallows-prepare-error"
 			case strings.Contains(p, "a failed preparation was cached"):
 				sig = "cached-failure"
 			case strings.Contains(p, "statement is closed") && strings.Contains(p, "Close issued before it returned: false") && !strings.Contains(p, "Reset count during it: 0"):
@@ -517,7 +610,11 @@ func report(c *core.Ctx, sc scenario, out outcome) {
 			byClass[sig] = append(byClass[sig], p)
 		}
 		for sig, ps := range byClass {
-			c.Violation(sig, map[string]interface{}{"scenario": sc.String(), "problems": ps, "schedule": out.trace})
+			d := map[string]interface{}{"scenario": sc.String(), "problems": ps, "schedule": out.trace}
+			if strings.HasPrefix(sig, "deadlock") {
+				d["goroutines"] = out.dump
+			}
+			c.Violation(sig, d)
 		}
 		return
 	}
@@ -533,7 +630,7 @@ func postChild(dir string, batch int, res *core.Result) { core.ScanRaceLogs(dir,
 var Engine = &core.Engine{
 	ID:    "C14",
 	Level: "exploration",
-	Rule: "scenario = 2..4 workers x 1..3 operations (raw queries on two texts, model query, update, transactions with one and two statements) x 0..2 Reset() + Close() (early or at the end) x {config-level, session-level PrepareStmt} x prepare failures (<=2) x ErrBadConn (<=1) x parking of the three windows inside prepare() on/off; three dedicated scenarios (single-connection pool, one text + failing preparation, Reset during in-flight preparations); " +
+	Rule: "scenario = 2..4 workers x 1..3 operations (raw queries on two texts, model query, update, Row() reads of the worker's own counter, transactions with one and two statements incl. increment-then-Row()) x 0..2 Reset() + Close() (early or at the end) x {config-level PrepareStmt, session-level PrepareStmt with a session derived per operation} x prepare failures (<=2) x ErrBadConn (<=1) x parking of the three windows inside prepare() on/off; three dedicated scenarios (single-connection pool, one text + failing preparation, Reset during in-flight preparations); " +
 		"one schedule per case: every gorm-level PrepareContext, every prepared-statement execution at the driver and every hook window is parked and released one at a time in a seeded order; distinct = the literal sequence of released calls and controller actions; every schedule is non-trivial (at least two workers share a handle)",
 	Assumptions: []string{
 		"schedules are explored at the driver / ConnPool boundary and at three hook windows; interleavings inside database/sql and the Go runtime are left to the race detector and natural scheduling",
